@@ -470,7 +470,9 @@ func checkC09(prop, tier string) int {
 	}
 	pool := NewPool()
 	pool.Recycle = 50
+	pool.Deadline = time.Now().Add(g4Deadline(tier))
 	results := pool.Run(jobs)
+	skippedByDeadline := countSkipped(results)
 	var tot c09Res
 	infra := 0
 	perFam := map[string]int{}
@@ -543,7 +545,8 @@ func checkC09(prop, tier string) int {
 			"distinct_nontrivial":           tot.Distinct,
 			"rule":                          "small-scope enumeration: every segment-stack shape (each key of the universe absent/Set/Del in each segment) x lower-level variant x every pair of bounds x every program over {Next, Current, SeekTo(x)} up to the stated length, run on real snapshots built through the public API; states = snapshots built, transitions = iterator calls compared with the sorted-slice cursor, distinct_nontrivial = snapshot shapes containing at least one tombstone",
 			"samples":                       samples,
-			"exhaustive":                    infra == 0,
+			"exhaustive":                    infra == 0 && skippedByDeadline == 0,
+			"cap_hit":                       fmt.Sprintf("%d of %d jobs skipped by the deadline of %v", skippedByDeadline, len(jobs), g4Deadline(tier)),
 			"families":                      famNames,
 			"snapshots_per_family":          perFam,
 			"known_findings_hit":            known,
